@@ -370,3 +370,136 @@ Proof.
   - rewrite D4, C5. auto.
   - rewrite D5, C6, B5, C7, B6, A10. reflexivity.
 Qed.
+
+(* ---------------- the handle of a Thread object (round 6) ---------------- *)
+(* a thread that has been created never becomes TNotStarted again *)
+Lemma wake_ns rc s : s <> TNotStarted -> wake rc s <> TNotStarted.
+Proof. destruct s; cbn; congruence. Qed.
+
+Lemma prim_step_ns p t c p' u : outcome_state (prim_step p t c) = Some p' -> st p u <> TNotStarted -> st p' u <> TNotStarted.
+Proof.
+  intros H Hu. destruct c; cbn [prim_step] in H.
+  - inv_o H. auto.
+  - destruct (acquire p m t) eqn:Ha; inv_o H. apply acquire_some in Ha as (k & -> & _). auto.
+  - destruct (acquire p m t) eqn:Ha; inv_o H; auto. apply acquire_some in Ha as (k & -> & _). auto.
+  - destruct (owned_by (mtx p m) t); [|destruct (m_rec (mtx p m))]; inv_o H; auto.
+    unfold release. destruct (m_cnt (mtx p m)) as [|[|k]]; auto.
+  - destruct (st p t) eqn:Hst; try discriminate.
+    + destruct (negb _); [inv_o H; wsimpl; unfold upd; destruct (Nat.eqb u t); congruence|].
+      destruct (dl_bad dl); inv_o H; unfold release_all; wsimpl; auto. unfold upd; destruct (Nat.eqb u t); congruence.
+    + destruct (is_free _); inv_o H. wsimpl. unfold upd; destruct (Nat.eqb u t); congruence.
+  - destruct (find _ _) as [v|] eqn:Hf; inv_o H; auto. wsimpl.
+    unfold upd. destruct (Nat.eqb_spec u v) as [->|]; auto. apply wake_ns. 
+    apply find_blocked_some in Hf as [Hb _]. destruct (st p v); cbn in Hb; congruence.
+  - inv_o H. wsimpl. destruct (blocked_on c (st p u)); auto. now apply wake_ns.
+  - destruct (0 <? sem p s); [inv_o H; auto|]. destruct (dl_bad dl); inv_o H. auto.
+  - destruct (0 <? sem p s); inv_o H; auto.
+  - inv_o H; auto.
+  - destruct (st p child) eqn:Hc; inv_o H; auto. wsimpl. unfold upd. destruct (Nat.eqb u child); congruence.
+  - destruct (st p child); inv_o H. auto.
+Qed.
+
+Lemma upd_ns (f : tid -> tstat) k v u : f u <> TNotStarted -> v <> TNotStarted -> upd f k v u <> TNotStarted.
+Proof. intros. unfold upd. destruct (Nat.eqb u k); auto. Qed.
+
+Lemma step_ns w mv u : st (ps w) u <> TNotStarted -> st (ps (step w mv)) u <> TNotStarted.
+Proof.
+  intros H. destruct mv as [t|t|t|t|n|c]; cbn [step].
+  - rewrite ps_clear_mark. destruct (step_run_case w t) as [|Hr Hpc Hs|op rest Hr Hpc Hs|p' Hr Hpc Hp|p' r Hr Hpc Hp].
+    + auto.
+    + wsimpl. apply upd_ns; congruence.
+    + rewrite ps_begin_op. auto.
+    + wsimpl. eapply prim_step_ns; eauto. rewrite Hp. reflexivity.
+    + rewrite ps_after_return. wsimpl. eapply prim_step_ns; eauto. rewrite Hp. reflexivity.
+  - destruct (st (ps w) t) eqn:Hst; auto.
+    + destruct (is_sem_wait _); auto; try (rewrite ps_after_return; auto).
+    + wsimpl. unfold prim_spurious. rewrite Hst. wsimpl. apply upd_ns; congruence.
+  - destruct (st (ps w) t) eqn:Hst; auto.
+    + destruct (pc (tc w t)); auto. destruct (_ && _); auto; try (rewrite ps_after_return; auto).
+    + wsimpl. unfold prim_timeout. rewrite Hst. destruct dl; auto. destruct (dl_expired _ _); auto. wsimpl. apply upd_ns; congruence.
+  - wsimpl. unfold prim_timeout_steal. destruct (st (ps w) t) eqn:Hst; auto. destruct dl; auto. destruct (dl_expired _ _); auto.
+    wsimpl. apply upd_ns; congruence.
+  - auto.
+  - wsimpl. unfold prim_rotate. destruct (cnd (ps w) c); auto.
+Qed.
+
+Lemma handle_begin_op w t op rest : handle (begin_op w t op rest) = handle w.
+Proof. destruct op; cbn [begin_op]; wsimpl; try destruct (handle w c); reflexivity. Qed.
+
+Lemma begin_pc w t op rest u c : pc (tc (begin_op w t op rest) u) = ThStartRet c -> u <> t /\ pc (tc w u) = ThStartRet c.
+Proof.
+  destruct (Nat.eq_dec u t) as [->|Hu]; [|rewrite tc_begin_op_other by auto; auto].
+  destruct op; cbn [begin_op]; wsimpl; try destruct (handle w c0); wsimpl; rewrite ?upd_same; cbn; discriminate.
+Qed.
+
+Lemma ar_pc w t r u c : pc (tc (after_return w t (pc (tc w t)) r) u) = ThStartRet c ->
+  (u <> t /\ pc (tc w u) = ThStartRet c) \/ (u = t /\ pc (tc w t) = ThStartP c /\ r = 0).
+Proof.
+  destruct (Nat.eq_dec u t) as [->|Hu]; [|rewrite tc_after_return_other by auto; auto].
+  destruct (pc (tc w t)) eqn:Hpc; cbn [after_return];
+    repeat match goal with |- context [if ?b then _ else _] => destruct b eqn:? end;
+    wsimpl; rewrite ?upd_same; cbn [pc]; try discriminate; try congruence.
+  intros E. inversion E; subst. right. repeat split; auto. now apply Z.eqb_eq.
+Qed.
+
+Lemma ar_handle w t r c : handle (after_return w t (pc (tc w t)) r) c = true -> handle w c = true \/ pc (tc w t) = ThStartRet c.
+Proof.
+  destruct (pc (tc w t)) eqn:Hpc; cbn [after_return];
+    repeat match goal with |- context [if ?b then _ else _] => destruct b eqn:? end;
+    wsimpl; auto; unfold upd; destruct (Nat.eqb_spec c c0) as [->|]; auto; discriminate.
+Qed.
+
+(* the handle of a Thread object is non-null only if the child has been created (pthread_create succeeded): a handle never
+   refers to a thread that does not exist *)
+Definition HInv (w : world) : Prop :=
+  (forall c, handle w c = true -> st (ps w) c <> TNotStarted) /\
+  (forall t c, pc (tc w t) = ThStartRet c -> st (ps w) c <> TNotStarted).
+
+Lemma HInv_same w w' : handle w' = handle w -> tc w' = tc w -> (forall u, st (ps w) u <> TNotStarted -> st (ps w') u <> TNotStarted) -> HInv w -> HInv w'.
+Proof. intros E1 E2 E3 [A B]. split; [intros c; rewrite E1; auto|intros t c; rewrite E2; eauto]. Qed.
+
+Lemma handle_clear_mark w w' t : handle (clear_mark_on_block w w' t) = handle w'.
+Proof. unfold clear_mark_on_block. destruct (_ && _); reflexivity. Qed.
+
+Lemma step_handle w mv c : handle (step w mv) c = true -> handle w c = true \/ exists t, pc (tc w t) = ThStartRet c.
+Proof.
+  destruct mv as [t|t|t|t|n|k]; cbn [step]; auto.
+  - rewrite handle_clear_mark. destruct (step_run_case w t) as [|Hr Hpc Hs|op rest Hr Hpc Hs|p' Hr Hpc Hp|p' r Hr Hpc Hp]; auto.
+    + rewrite handle_begin_op. auto.
+    + intros Hh. apply (ar_handle (set_ps w p') t r c) in Hh as [Hh|Hh]; eauto.
+  - destruct (st (ps w) t); auto. destruct (is_sem_wait _); auto. intros Hh. apply ar_handle in Hh as [Hh|Hh]; eauto.
+  - destruct (st (ps w) t); auto. destruct (pc (tc w t)) eqn:Hpc; auto. destruct (_ && _); auto.
+Qed.
+
+Lemma step_pc w mv u c : pc (tc (step w mv) u) = ThStartRet c -> pc (tc w u) = ThStartRet c \/ st (ps (step w mv)) c <> TNotStarted.
+Proof.
+  destruct mv as [t|t|t|t|n|k]; cbn [step]; auto.
+  - rewrite tc_clear_mark, ps_clear_mark.
+    destruct (step_run_case w t) as [|Hr Hpc Hs|op rest Hr Hpc Hs|p' Hr Hpc Hp|p' r Hr Hpc Hp]; auto.
+    + intros Hq. apply begin_pc in Hq as [_ Hq]. auto.
+    + intros Hq. apply (ar_pc (set_ps w p') t r u c) in Hq as [[_ Hq]|(-> & Hq & ->)]; auto.
+      right. rewrite ps_after_return. wsimpl. rewrite Hq in Hp. cbn [pending] in Hp.
+      apply create_ret in Hp as [(_ & _ & ->)|(_ & E & _)]; [wsimpl; rewrite upd_same; discriminate|discriminate].
+  - destruct (st (ps w) t); auto. destruct (is_sem_wait _) eqn:Hsw; auto. intros Hq.
+    apply ar_pc in Hq as [[_ Hq]|(-> & Hq & _)]; auto. rewrite Hq in Hsw. discriminate.
+  - destruct (st (ps w) t); auto. destruct (pc (tc w t)) eqn:Hpc; auto. destruct (_ && _); auto. rewrite <- Hpc. intros Hq.
+    apply ar_pc in Hq as [[_ Hq]|(-> & Hq & _)]; auto. rewrite Hq in Hpc. discriminate.
+Qed.
+
+Lemma HInv_step w mv : HInv w -> HInv (step w mv).
+Proof.
+  intros [A B]. pose proof (step_ns w mv) as N. split.
+  - intros c Hh. apply step_handle in Hh as [Hh|[t Hq]]; eauto.
+  - intros u c Hq. apply step_pc in Hq as [Hq|Hq]; eauto.
+Qed.
+
+Lemma HInv_init scripts results started s0 v0 : HInv (init scripts results started s0 v0).
+Proof. split; cbn; intros; discriminate. Qed.
+
+Lemma handle_only_for_created_thread_l scripts results started s0 v0 sched c :
+  handle (reach scripts results started s0 v0 sched) c = true -> st (ps (reach scripts results started s0 v0 sched)) c <> TNotStarted.
+Proof.
+  assert (H : HInv (reach scripts results started s0 v0 sched)).
+  { unfold reach. apply run_inv; [intros; now apply HInv_step|apply HInv_init]. }
+  apply H.
+Qed.
